@@ -8,6 +8,7 @@
    quantify over ALL fault scripts, buffers and operation sequences. *)
 From Coq Require Import List NArith Arith.
 From NV Require Import Sinks.Sink Sinks.SinkProofs Sinks.LayerProofs Sinks.BgzfProofs.
+From NV Require Import Io.Sched Sinks.Mt Sinks.MtProofs Sinks.Format Sinks.FormatProofs.
 Import ListNotations.
 
 (* ----------------------------------------------------------------------------------------- *)
@@ -142,6 +143,138 @@ Theorem c14_bgzf_finished_life_complete :
 Proof. exact bw_finished_life_complete. Qed.
 Print Assumptions c14_bgzf_finished_life_complete.
 
+(* ----------------------------------------------------------------------------------------- *)
+(* bgzf::io::MultithreadedWriter: NV.Sinks.Mt instantiates the ticket pipeline NV.Io.Sched (C03's)
+   with this property's sink in the writer thread.  [sched] is ANY list of scheduler actions
+   (submit / start / complete task t / take / emit): completion order of the compress tasks,
+   window occupancy and thread interleaving are all universally quantified; [mt_final] says the
+   life is over (channel drained, or the writer thread has exited with an error). *)
+
+(* under every schedule the result and the sink are those of the sequential `?`-chain
+   "14 write_all calls per frame, frames in submission order, then the EOF block" *)
+Theorem c14_mt_equals_sequential :
+  forall P maxbuf frames ops sched s,
+    mt_final (mt_state P maxbuf frames ops sched s) = true ->
+    mt_life P maxbuf frames ops sched s = run_calls (mt_calls maxbuf frames ops) s.
+Proof. exact mt_equals_sequential. Qed.
+Print Assumptions c14_mt_equals_sequential.
+
+Theorem c14_mt_all_ok_complete :
+  forall P maxbuf frames ops sched s s',
+    mt_final (mt_state P maxbuf frames ops sched s) = true ->
+    mt_life P maxbuf frames ops sched s = (Ok, s') ->
+    sbytes s' = sbytes s ++ mt_out maxbuf frames ops.
+Proof. exact mt_all_ok_complete. Qed.
+Print Assumptions c14_mt_all_ok_complete.
+
+(* ... and that complete file is the single-threaded writer's for the same operations + finish *)
+Theorem c14_mt_out_is_st_out :
+  forall maxbuf frames, 0 < maxbuf -> forall ops,
+    mt_out maxbuf frames ops = bw_ideal_out maxbuf frames (map mop_bop ops ++ [BFinish]).
+Proof. exact mt_out_is_st_out. Qed.
+Print Assumptions c14_mt_out_is_st_out.
+
+Theorem c14_mt_failure_reported :
+  forall P maxbuf frames ops sched s r s' c e,
+    mt_final (mt_state P maxbuf frames ops sched s) = true ->
+    mt_life P maxbuf frames ops sched s = (r, s') ->
+    sscript s = c ++ sscript s' -> In (Fail e) c -> e <> e_interrupted ->
+    r = Err e /\ exists p, sbytes s' = sbytes s ++ p /\ prefix p (mt_out maxbuf frames ops).
+Proof. exact mt_failure_reported. Qed.
+Print Assumptions c14_mt_failure_reported.
+
+Theorem c14_mt_short_write_invariant :
+  forall P maxbuf frames ops sched s,
+    mt_final (mt_state P maxbuf frames ops sched s) = true -> no_fail (sscript s) ->
+    exists s', mt_life P maxbuf frames ops sched s = (Ok, s') /\
+               sbytes s' = sbytes s ++ mt_out maxbuf frames ops.
+Proof. exact mt_short_write_invariant. Qed.
+Print Assumptions c14_mt_short_write_invariant.
+
+(* the two strategies run by the correspondence check are schedules (so the theorems above apply
+   to what is compared with the implementation), and the FIFO one always reaches a final state *)
+Theorem c14_mt_model_sequential :
+  forall P maxbuf frames lifo ops s r,
+    mt_model P maxbuf frames lifo ops s = Some r -> r = run_calls (mt_calls maxbuf frames ops) s.
+Proof. exact mt_model_sequential. Qed.
+Print Assumptions c14_mt_model_sequential.
+
+Theorem c14_mt_model_fifo_total :
+  forall P maxbuf frames, 0 < P -> forall ops s, mt_model P maxbuf frames false ops s <> None.
+Proof. exact mt_model_fifo_total. Qed.
+Print Assumptions c14_mt_model_fifo_total.
+
+(* ----------------------------------------------------------------------------------------- *)
+(* format writers over a BGZF writer (BAM, BCF, CSI, tabix, bgzipped SAM / VCF at the level of
+   their byte stream): [ops] = for each explicit operation of the format layer, the calls it
+   makes on the BGZF writer, joined by `?` -- ANY calls, ANY grouping *)
+Theorem c14_format_over_bgzf :
+  forall maxbuf frames, 0 < maxbuf -> forall ops s rs st' s',
+    fob_run_ops maxbuf frames ops s = (rs, st', s') ->
+    (Forall (fun r => r = Ok) rs ->
+       length rs = length ops /\ st' = fob_state maxbuf frames ops /\
+       sbytes s' = sbytes s ++ fob_out maxbuf frames ops) /\
+    (forall c e, sscript s = c ++ sscript s' -> In (Fail e) c -> e <> e_interrupted ->
+       In (Err e) rs /\ exists j, rs = repeat Ok j ++ [Err e]) /\
+    (no_fail (sscript s) ->
+       rs = repeat Ok (length ops) /\ st' = fob_state maxbuf frames ops /\
+       sbytes s' = sbytes s ++ fob_out maxbuf frames ops) /\
+    (exists p, sbytes s' = sbytes s ++ p /\ prefix p (fob_out maxbuf frames ops)).
+Proof. exact format_over_bgzf. Qed.
+Print Assumptions c14_format_over_bgzf.
+
+(* write_all calls with buffers of lengths ns, then try_finish / finish: the fault-free stream is
+   BGZF of the concatenation ([bgzf_of_len]: ceil(total / maxbuf) frames, then the EOF block) *)
+Theorem c14_bgzf_stream_of_concatenation :
+  forall maxbuf frames, 0 < maxbuf -> forall ns o, o = BTryFinish \/ o = BFinish ->
+    bw_ideal_out maxbuf frames (map BWriteAll ns ++ [o]) = bgzf_of_len maxbuf frames (list_sum ns).
+Proof. exact writes_then_finish_out. Qed.
+Print Assumptions c14_bgzf_stream_of_concatenation.
+
+(* the staging-buffer case (CSI / tabix, small SAM.gz / VCF.gz / BAM / BCF): everything fits the
+   staging buffer, the writes return Ok without touching the sink, and a destination failure --
+   which can only happen inside the finishing call -- is returned by that call *)
+Theorem c14_small_file_error_at_finish :
+  forall maxbuf frames, 0 < maxbuf -> forall ns o s rs st' s',
+    o = BTryFinish \/ o = BFinish -> list_sum ns < maxbuf ->
+    bw_run_ops maxbuf frames (map BWriteAll ns ++ [o]) s = (rs, st', s') ->
+    exists r, rs = repeat Ok (length ns) ++ [r] /\
+      (r = Ok -> sbytes s' = sbytes s ++ bgzf_of_len maxbuf frames (list_sum ns)) /\
+      (forall c e, sscript s = c ++ sscript s' -> In (Fail e) c -> e <> e_interrupted -> r = Err e) /\
+      (no_fail (sscript s) -> r = Ok).
+Proof. exact small_file_error_at_finish. Qed.
+Print Assumptions c14_small_file_error_at_finish.
+
+(* ----------------------------------------------------------------------------------------- *)
+(* CRAM writer at the level of its sink usage (each operation = a `?`-chain of write_all calls of
+   the given lengths; content opaque).  Partial: the container encoder is not modelled, so
+   "decodes to what was written" is not part of the statement. *)
+Theorem c14_cram_failure_reported_partial :
+  forall ops s rs s',
+    cram_run ops s = (rs, s') ->
+    (Forall (fun r => r = Ok) rs ->
+       length rs = length ops /\ length (sbytes s') = length (sbytes s) + cram_total ops) /\
+    (forall c e, sscript s = c ++ sscript s' -> In (Fail e) c -> e <> e_interrupted -> In (Err e) rs) /\
+    (no_fail (sscript s) ->
+       rs = repeat Ok (length ops) /\ length (sbytes s') = length (sbytes s) + cram_total ops).
+Proof. exact cram_failure_reported_partial. Qed.
+Print Assumptions c14_cram_failure_reported_partial.
+
+(* the full statement for CRAM, relative to its container codec (encode = the `?`-chains of
+   buffers the writer produces for the records, decode = the reader): proved for every codec that
+   round-trips on a healthy destination; that the real writer is [lw_run (encode r)] is what the
+   correspondence check samples (`cram` cases), and the round trip is the codec properties' *)
+Definition c14_cram_full_statement (R : Type) (encode : R -> list (list call))
+    (decode : list byte -> option R) : Prop :=
+  (forall r, decode (lw_out (encode r)) = Some r) ->
+  forall r s rs s', sbytes s = [] -> lw_run (encode r) s = (rs, s') ->
+    Forall (fun x => x = Ok) rs -> decode (sbytes s') = Some r.
+
+Theorem c14_layered_all_ok_decodes :
+  forall R encode decode, c14_cram_full_statement R encode decode.
+Proof. exact layered_all_ok_decodes. Qed.
+Print Assumptions c14_layered_all_ok_decodes.
+
 Definition wit_frame : list byte := map N.of_nat (seq 1 30).
 
 (* the former counterexample: one 3-byte write, try_finish, drop; the sink accepts the frame and
@@ -174,3 +307,21 @@ Example c14_example_bgzf :
     = [Ok; Err 3%N]
   /\ sbytes (snd (bw_run 100 [wit_frame] [BWriteAll 3] ideal_sink)) = wit_frame ++ BGZF_EOF.
 Proof. vm_compute. split; reflexivity. Qed.
+
+(* the multithreaded writer: 2 blocks (3 + 1 bytes staged with a flush in between), pool of 2;
+   the sink writes short, then fails inside the second frame: reported whichever strategy runs *)
+Example c14_example_mt :
+  mt_nblocks 100 [MWriteAll 3; MFlush; MWriteAll 1] = 2
+  /\ fst (match mt_model 2 100 [wit_frame; wit_frame] true [MWriteAll 3; MFlush; MWriteAll 1]
+                 (mkSink [] (repeat (Short 7) 20 ++ [Fail 4%N]) 0) with Some x => x | None => (OutOfFuel, ideal_sink) end)
+     = Err 4%N
+  /\ mt_model 2 100 [wit_frame; wit_frame] false [MWriteAll 3; MFlush; MWriteAll 1] ideal_sink
+     = Some (Ok, mkSink (wit_frame ++ wit_frame ++ BGZF_EOF) [] 29).
+Proof. vm_compute. repeat split; reflexivity. Qed.
+
+(* a CSI-like life: 3 small writes, try_finish; the sink fails in the 9th call made by try_finish *)
+Example c14_example_small_file :
+  fst (fob_run 100 [wit_frame] [[BWriteAll 3; BWriteAll 4]; [BWriteAll 1]; [BTryFinish]]
+         (mkSink [] (repeat Full 8 ++ [Fail 6%N]) 0))
+  = [Ok; Ok; Err 6%N].
+Proof. vm_compute. reflexivity. Qed.
